@@ -30,7 +30,7 @@ func wsRun(r *RNG) string {
 }
 
 func suiteC15(cfg Config, res *Result) {
-	res.Rule = "generated documents whose literal text carries random runs of space / tab / CR / LF around random constructs ({{ }}, if/else/endif, for/endfor, with, set, comment tags), with every subset of the '-' positions per construct, under all four TrimBlocks x LStripBlocks settings; metamorphic oracle: the output equals the output of the hand-stripped source (whitespace named by '-' / TrimBlocks / LStripBlocks deleted from the text, markers removed, options off); also compared with the Lean model; non-trivial = document with >= 1 '-' or an option on; distinct by (document, options)"
+	res.Rule = "generated documents whose literal text carries random runs of space / tab / CR / LF around random constructs ({{ }}, if/else/endif, for/endfor, with, set, comment tags), with every subset of the '-' positions per construct, under all four TrimBlocks x LStripBlocks settings, and one compiled template executed under all four settings in turn; metamorphic oracle: the output equals the output of the hand-stripped source (whitespace named by '-' / TrimBlocks / LStripBlocks deleted from the text, markers removed, options off); also compared with the Lean model; non-trivial = document with >= 1 '-' or an option on; distinct by (document, options)"
 	n := 5000
 	if cfg.Thorough() {
 		n = 100000
@@ -136,52 +136,58 @@ func suiteC15(cfg Config, res *Result) {
 				segs = append(segs, seg{j: j})
 			}
 		}
-		// comment bodies are skipped at token level but their text takes no part: handle by
-		// rendering: the stripped source keeps the comment tags, so nothing special is needed
-		for k := range segs {
-			if !segs[k].isText {
-				continue
+		// the stripped source under one option setting
+		mkStripped := func(trim, lstrip bool) (string, bool) {
+			out := make([]string, len(segs))
+			for k := range segs {
+				if !segs[k].isText {
+					continue
+				}
+				txt := segs[k].text
+				var prev, next *tok
+				if k > 0 {
+					prev = &toks[segs[k-1].j]
+				}
+				if k+1 < len(segs) {
+					next = &toks[segs[k+1].j]
+				}
+				// options first (as the implementation does), then the '-' markers
+				if trim && prev != nil && prev.isTag && strings.HasPrefix(txt, "\n") {
+					txt = txt[1:]
+				}
+				if lstrip && next != nil && next.isTag {
+					txt = strings.TrimRight(txt, "\t ")
+				}
+				if prev != nil && prev.dashR {
+					txt = strings.TrimLeft(txt, wsAll)
+				}
+				if next != nil && next.dashL {
+					txt = strings.TrimRight(txt, wsAll)
+				}
+				out[k] = txt
 			}
-			txt := segs[k].text
-			var prev, next *tok
-			if k > 0 {
-				prev = &toks[segs[k-1].j]
+			var stripped strings.Builder
+			marked := trim || lstrip
+			for k, s := range segs {
+				if s.isText {
+					stripped.WriteString(out[k])
+					continue
+				}
+				t := toks[s.j]
+				if t.dashL || t.dashR {
+					marked = true
+				}
+				o, c := "{%", "%}"
+				if t.isVar {
+					o, c = "{{", "}}"
+				}
+				stripped.WriteString(o + " " + t.inner + " " + c)
 			}
-			if k+1 < len(segs) {
-				next = &toks[segs[k+1].j]
-			}
-			// options first (as the implementation does), then the '-' markers
-			if trim && prev != nil && prev.isTag && strings.HasPrefix(txt, "\n") {
-				txt = txt[1:]
-			}
-			if lstrip && next != nil && next.isTag {
-				txt = strings.TrimRight(txt, "\t ")
-			}
-			if prev != nil && prev.dashR {
-				txt = strings.TrimLeft(txt, wsAll)
-			}
-			if next != nil && next.dashL {
-				txt = strings.TrimRight(txt, wsAll)
-			}
-			segs[k].text = txt
+			return stripped.String(), marked
 		}
+		strippedSrc, marked := mkStripped(trim, lstrip)
 		var stripped strings.Builder
-		marked := trim || lstrip
-		for _, s := range segs {
-			if s.isText {
-				stripped.WriteString(s.text)
-				continue
-			}
-			t := toks[s.j]
-			if t.dashL || t.dashR {
-				marked = true
-			}
-			o, c := "{%", "%}"
-			if t.isVar {
-				o, c = "{{", "}}"
-			}
-			stripped.WriteString(o + " " + t.inner + " " + c)
-		}
+		stripped.WriteString(strippedSrc)
 		ct := CtxTerm{Names: []string{"t", "two", "v"}, Vals: []VT{vBool(true), vList("int", vInt(1), vInt(2)), vStr("V")}}
 		ref := ProgCase{Src: stripped.String(), Ctx: &ct}
 		ro := ref.RunImpl()
@@ -191,6 +197,31 @@ func suiteC15(cfg Config, res *Result) {
 			wants[pc.Req()] = ro.Out
 		}
 		nontriv[pc.Req()] = marked
+		// one compiled template executed under all four settings in turn: the options in force at
+		// each execution decide, not the ones of an earlier execution
+		if i%5 == 0 {
+			set, _ := pc.buildSet()
+			if tpl, err := pc.compile(set); err == nil {
+				order := [][2]bool{{false, false}, {true, false}, {false, true}, {true, true}}
+				for a := len(order) - 1; a > 0; a-- {
+					b := rng.Intn(a + 1)
+					order[a], order[b] = order[b], order[a]
+				}
+				for _, o := range order {
+					tpl.Options.TrimBlocks, tpl.Options.LStripBlocks = o[0], o[1]
+					got := execOnce(tpl, ct.Go())
+					ss, _ := mkStripped(o[0], o[1])
+					want := (ProgCase{Src: ss, Ctx: &ct}).RunImpl()
+					if want.Class != "ok" {
+						break
+					}
+					if got.err != "" || got.pan != "" || got.out != want.Out {
+						res.add(Finding{Kind: "oracle", Proj: "whitespace", Sig: "c15-options-of-an-earlier-execution", Case: fmt.Sprintf("src=%q executed under %v in turn, now trim=%v lstrip=%v", src.String(), order, o[0], o[1]), Impl: got.String(), Model: "hand-stripped source renders ok " + hxb(want.Out)})
+						break
+					}
+				}
+			}
+		}
 	}
 	runProgCases(cfg, res, cases, "c15", func(c ProgCase, o ImplOutcome) bool { return nontriv[c.Req()] },
 		func(c ProgCase, o ImplOutcome) *Finding {
